@@ -31,7 +31,8 @@ def rand_op(rng, names):
     if r < 0.78: return CC(node, 0, "create-db e%d t" % rng.randint(0, 2))
     if r < 0.84: return CC(node, 0, "create-user u%d pw" % rng.randint(0, 1))
     if r < 0.9: return CC(node, 0, "set-permissions u0 %s a*" % rng.choice(["r", "rw", "rwix"]))
-    if r < 0.95: return CC(node, 0, "snapshot false")
+    if r < 0.93: return CC(node, 0, "snapshot false")
+    if r < 0.96: return CC(node, 0, "snapshot %s %s" % (rng.choice(["false", "true"]), rng.choice(["e0", "e1", "d1", "e0|d1", "e2|e0", "nodb"])))
     return ["flush", node]
 
 
@@ -46,6 +47,10 @@ def gen_cases(tier, seed):
         for node in names:
             for s in singles:
                 ops = list(base) + [CC("n1", 1, "set a 0"), ["settle"], CC(node, 0, s), ["settle"]]
+                cases.append(("s%d" % cid, hdr, ops)); cid += 1
+            # a snapshot that names databases other than the selected one
+            for s in ["snapshot false e0", "snapshot true e0|d1", "snapshot false d1", "snapshot false nodb"]:
+                ops = list(base) + [CC("n1", 0, "create-db e0 t"), ["settle"], CC(node, 0, s), ["settle"]]
                 cases.append(("s%d" % cid, hdr, ops)); cid += 1
         dist["single_op"] = cid
     for i in range(n // 4):
@@ -83,6 +88,7 @@ def oracle(case, io, mo):
     obs = split_obs(io)
     writers = {}     # (db,key) -> set of nodes that originated a plain write / remove to it
     flushed = False
+    sec_snap = False     # a snapshot asked of a secondary is that node's own business (it is not forwarded): only the primary's requests must reach everyone
     removed = set()
     for i, op in enumerate(case[2]):
         if i >= len(obs):
@@ -96,6 +102,8 @@ def oracle(case, io, mo):
             flushed = True
         if op[0] == "cmd":
             w = line_of(op).split(" ")
+            if w[0] == "snapshot" and op[1] != "n1":
+                sec_snap = True
             if w[0] in ("set", "remove", "set-safe") and len(w) > 1:
                 writers.setdefault(w[1], set()).add(op[1])
                 if w[0] == "remove":
@@ -113,6 +121,8 @@ def oracle(case, io, mo):
             for name, nd in nodes.items():
                 if nd["dead"]:
                     fails.append(("service-thread-died", "step %d: node %s" % (i, name)))
+                if not flushed and not sec_snap and nd.get("snap") != p.get("snap"):
+                    fails.append(("snapshot-requests-differ", "step %d: at quiescence %s is to snapshot %s, the primary %s" % (i, name, nd.get("snap"), p.get("snap"))))
                 if nd["pending"] != 0:
                     fails.append(("pending-not-drained", "step %d: node %s still reports %d pending operations at quiescence" % (i, name, nd["pending"])))
                 if name == prim[0]:
